@@ -225,10 +225,8 @@ class PeekAll(Terminal):
 
     def parse(self, state: ParserState, pairs: list[Pair]) -> bool:  # noqa: D102
         position = state.pos
-        stack_size = len(state.user_stack)
-        children: list[Pair] = []
 
-        for i, literal in enumerate(reversed(state.user_stack)):
+        for literal in reversed(state.user_stack):
             # XXX: can `literal` be empty?
             if not state.input.startswith(literal, position):
                 state.fail(literal)
@@ -236,11 +234,7 @@ class PeekAll(Terminal):
 
             position += len(literal)
 
-            if i < stack_size:
-                state.parse_trivia(children)
-
         state.pos = position
-        pairs.extend(children)
         return True
 
     def generate(self, gen: Builder, matched_var: str, pairs_var: str) -> None:
@@ -329,7 +323,6 @@ class PopAll(Terminal):
 
     def parse(self, state: ParserState, pairs: list[Pair]) -> bool:  # noqa: D102
         position = state.pos
-        children: list[Pair] = []
         state.checkpoint()
 
         while not state.user_stack.empty():
@@ -341,12 +334,8 @@ class PopAll(Terminal):
 
             position += len(literal)
 
-            # TODO: don't skip trivia after the last pop
-            state.parse_trivia(children)
-
         state.ok()
         state.pos = position
-        pairs.extend(children)
         return True
 
     def generate(self, gen: Builder, matched_var: str, pairs_var: str) -> None:
